@@ -356,21 +356,47 @@ def check_builder(model, rep):
     if nstmt < 6:
         raise AnalysisError(f'_BlockBuilder: only {nstmt} statement constructions found')
     # _iter_locks / _needs_lock look at the variables of every argument
+    # _iter_locks / _needs_lock are INTERPRETED (sa.miniexec) on abstract expressions: the locks of exactly the shared arrays that any positional or keyword
+    # argument mentions, each once; _needs_lock answers whether the condition mentions a shared array
+    import itertools as _it
+    from sa.miniexec import MiniExec, Sym, Returned, RaisedIn, AssertionFailed
+    from sa.algebra import Unsupported
     il = b.members['_iter_locks'].func
-    txt = src(il.node)
-    # the variables of EVERY positional and keyword argument: the comprehension that collects them reads both `args` and `kwargs.values()` (nested loops over
-    # the pair, or one loop over their concatenation) and the `.variables` of each item
-    comps = [c_ for c_ in ast.walk(il.node) if isinstance(c_, (ast.GeneratorExp, ast.ListComp, ast.SetComp)) and '.variables' in src(c_)]
-    covered = False
-    for c_ in comps:
-        rt = src(deep_resolved(il.node, c_))
-        covered = covered or ('kwargs.values()' in rt and any(isinstance(n_, ast.Name) and n_.id == 'args' for n_ in ast.walk(deep_resolved(il.node, c_))))
-    ok = covered and 'self._parent._shared_arrays.get' in txt and 'filter(None' in txt
-    rep.ob('R16.3', il.key, il.where(), ok, '_iter_locks maps every variable of every positional and keyword argument to its lock' if ok else
-           '_iter_locks no longer covers the variables of all positional and keyword arguments', statement='iter-locks-complete')
     nl = b.members['_needs_lock'].func
-    ok = 'var in self._parent._shared_arrays for var in condition.variables' in src(nl.node) and 'any(' in src(nl.node)
-    rep.ob('R16.3', nl.key, nl.where(), ok, '_needs_lock tests every variable of the condition', statement='needs-lock')
+    shared = {'a': 'lock-a', 'b': 'lock-b', 'c': 'lock-c'}
+
+    def interp(fn, env):
+        ex = MiniExec(dict(env, itertools=Sym(chain=_it.chain), dict=dict, set=set, frozenset=frozenset))
+        try:
+            ex.run(fn.node.body)
+            return list(ex.yielded)
+        except Returned as r:
+            v = r.value
+            return list(v) + list(ex.yielded) if not isinstance(v, (bool, type(None))) else v
+    bad_il = bad_nl = None
+    try:
+        for vars_pos, vars_kw in (([['a', 'x'], ['y']], {'out': ['b', 'a']}), ([[]], {}), ([['x']], {'k': ['c']}), ([['b'], ['b', 'c']], {})):
+            for mk in (frozenset,):
+                me = Sym(_parent=Sym(_shared_arrays=dict(shared)))
+                pn = [a_.arg for a_ in il.node.args.posonlyargs + il.node.args.args]
+                env = {pn[0]: me, il.node.args.vararg.arg: tuple(Sym(variables=mk(v)) for v in vars_pos), il.node.args.kwarg.arg: {k: Sym(variables=mk(v)) for k, v in vars_kw.items()}}
+                got = interp(il, env)
+                want = {shared[v] for vs in vars_pos + list(vars_kw.values()) for v in vs if v in shared}
+                if not isinstance(got, list) or sorted(got) != sorted(want):
+                    bad_il = bad_il or (vars_pos, vars_kw, got, sorted(want))
+        for vs in (['x'], ['x', 'b'], [], ['a']):
+            for mk in (frozenset,):
+                me = Sym(_parent=Sym(_shared_arrays=dict(shared)))
+                pn = [a_.arg for a_ in nl.node.args.posonlyargs + nl.node.args.args]
+                got = interp(nl, {pn[0]: me, pn[1]: Sym(variables=mk(vs))})
+                if bool(got) != any(v in shared for v in vs):
+                    bad_nl = bad_nl or (vs, got)
+    except (Unsupported, AssertionFailed, RaisedIn, TypeError, ValueError, KeyError, IndexError, AttributeError) as e:
+        raise AnalysisError(f'_BlockBuilder._iter_locks/_needs_lock use a construct the interpreter does not know: {type(e).__name__}: {e}')
+    rep.ob('R16.3', il.key, il.where(), bad_il is None, '_iter_locks maps every variable of every positional and keyword argument to its lock' if bad_il is None else
+           f'_iter_locks no longer covers the variables of all positional and keyword arguments: for arguments mentioning {bad_il[0]} and keywords {bad_il[1]} it yields {bad_il[2]} instead of {bad_il[3]}', statement='iter-locks-complete')
+    rep.ob('R16.3', nl.key, nl.where(), bad_nl is None, '_needs_lock tests every variable of the condition' if bad_nl is None else
+           f'_needs_lock answers {bad_nl[1]!r} for a condition over {bad_nl[0]}', statement='needs-lock')
     # array_* helpers go through exec
     for name in ('array_copy', 'array_iadd', 'array_imul', 'array_add_at', 'array_fill_zeros'):
         f = b.members[name].func
